@@ -17,7 +17,8 @@
    instantiates them with finite tables recorded from the real libraries and compares [serve_gen] with the real
    server request by request. *)
 From Coq Require Import List NArith ZArith Bool Lia String.
-From NB Require Import Base.Json Gen.ServerFacts.
+From NB Require Import Base.Json.
+From NB Require Import Gen.ServerFacts.
 Import ListNotations.
 Local Open Scope string_scope.
 Local Open Scope list_scope.
